@@ -27,7 +27,7 @@ void vf_begin(Ctx& ctx) {
   g_lim.maxexp_other = (int)ctx.optint("maxexp_other", 29);
   g_time_limit = (int)ctx.optint("time_limit", 120);
   vfalloc::g_ceiling = (long long)ctx.optint("heap_mb", 1024) << 20;
-  signal(SIGALRM, on_alarm);
+  signal(SIGALRM, on_alarm);   // replaces the generic per-case handler of vf.h: same effect, limit re-armed per library call
   // warm up lazy one-time allocations of the C++ runtime (locale, iostream) so they are not mistaken for leaks
   { std::ostringstream os; os << 1.5 << 7 << "x"; Paths64 p{ Path64{ Point64(0, 0), Point64(1, 1) } }; os << p; }
 }
